@@ -79,6 +79,43 @@ def validate(rep, sigfile, traced, tag):
     return bad
 
 
+def pty_runs(exe, text, comp):
+    """-v with standard error on a pseudo-terminal and a regular FILE operand: the only configuration in which the
+    writer thread's progress display runs.  Returns [(label, everything written to the terminal)]."""
+    import pty, select, subprocess, time
+    out = []
+    d = vlib.subdir("c12pty")
+    for label, args, name, data in (("compress -v on a terminal", ["-1", "-n", "3", "-v", "-k"], "p.txt", text * 2),
+                                    ("decompress -v on a terminal", ["-d", "-n", "3", "-v", "-k", "-f"], "q.bz2", comp)):
+        with open(os.path.join(d, name), "wb") as f:
+            f.write(data)
+        master, slave = pty.openpty()
+        env = dict(os.environ)
+        env.update(TSAN)
+        p = subprocess.Popen(vlib.launch_prefix() + [exe] + args + [name], cwd=d, stdin=subprocess.DEVNULL, stdout=subprocess.DEVNULL, stderr=slave,
+                             env=env, start_new_session=True)
+        os.close(slave)
+        buf, t0 = b"", time.time()
+        while time.time() - t0 < 300:
+            r, _, _ = select.select([master], [], [], 0.2)
+            if r:
+                try:
+                    chunk = os.read(master, 65536)
+                except OSError:
+                    break
+                if not chunk:
+                    break
+                buf += chunk
+            elif p.poll() is not None:
+                break
+        if p.poll() is None:
+            p.kill()
+        p.wait()
+        os.close(master)
+        out.append((label, buf.decode("latin1")))
+    return out
+
+
 def run(rep, tier, replay):
     rng = random.Random(vlib.seed())
     sigfile = model(rep)
@@ -103,6 +140,9 @@ def run(rep, tier, replay):
                          dict(pert, VERIF_IN_GRANUL="4096", VERIF_IN_SLOTS=slots, VERIF_DELAY="read:0=3000")))
         jobs.append(("decompress planted F1 seed%d" % sd, ["-d", "-n", "3"], bzcraft.f1_file(1024)[0], dict(pert, VERIF_IN_GRANUL="1024", VERIF_OUT_GRANUL="512")))
         jobs.append(("decompress planted F2 seed%d" % sd, ["-d", "-n", "4"], bzcraft.f2_file(1024)[0], dict(pert, VERIF_IN_GRANUL="1024")))
+        # end of file as a separate, late event: the input is an exact multiple of the read size and reads are slow
+        jobs.append(("compress exact multiple, late EOF seed%d" % sd, ["-1", "-n", "3"], mixed[:1000000], dict(pert, VERIF_DELAY="read:0=15000")))
+        jobs.append(("copy exact multiple, late EOF seed%d" % sd, ["-cdf"], (b"not bzip2 " * 100000)[:262144], dict(pert, VERIF_DELAY="read:0=15000")))
         for size in (0, 1000, 70000, 200000, 900000):
             jobs.append(("copy %d seed%d" % (size, sd), ["-cdf"], (b"not bzip2 " * 100000)[:size], pert))
         jobs.append(("copy slow reads seed%d" % sd, ["-cdf"], (b"not bzip2 " * 100000)[:400000], dict(pert, VERIF_DELAY="read:0=2000")))
@@ -113,6 +153,16 @@ def run(rep, tier, replay):
         kind = "copy" if "-cdf" in args else None
         return campaign.traced_run(exe, args, label, stdin=data, env=dict(env, **TSAN), timeout=300, kind=kind)
     traced = campaign.parallel(go, jobs, par=10)
+    # ---- the progress display (-v, stderr on a terminal, regular FILE operand) runs in the writer thread
+    for label, err in pty_runs(exe, text, comp):
+        rep.add("evaluations")
+        rep.add("runs_under_tsan")
+        reports = re.findall(r"WARNING: ThreadSanitizer: ([^\n(]+)", err)
+        if reports:
+            loc = re.findall(r"#0 (\S+) (\S+?):(\d+)", err)[:2]
+            where = ", ".join("%s (%s:%s)" % (f, os.path.basename(p), ln) for f, p, ln in loc)
+            rep.violation("%s: %s: access outside the lock discipline of Locks.tla at %s" % (label, reports[0].strip(), where),
+                          dict(kind="run", cls="tsan-report", label=label, report=err[:1500]))
     good = []
     for t in traced:
         rep.add("evaluations")
